@@ -25,7 +25,15 @@ use crate::wire::{self, Param, Sub};
 pub enum CAct {
     /// kind: V value, DK dispose by key, DH dispose by key hash (instance known), DHU dispose by key hash of an
     /// instance never seen, UD undecodable payload, UR unknown representation identifier
-    Arrive { w: u8, k: u32, kind: String },
+    /// hold: the datagram is lost on first transmission and arrives only after the writer's next change (a
+    /// retransmission: lower sequence number received later); reliable readers only
+    Arrive {
+        w: u8,
+        k: u32,
+        kind: String,
+        #[serde(default)]
+        hold: bool,
+    },
     /// form: take read take_next read_next iter into_iter take_inst read_inst stream_bare stream simple
     Call { form: String, max: usize, cond: String, inst: i64, dir: String },
     /// call `form` until it returns nothing twice in a row
@@ -57,10 +65,15 @@ struct CExec {
     arrivals: Vec<(u8, i64, u32, String)>,
     /// injected but not yet emitted to the trace: (w, sn, k, wire kind, payload tag)
     pending: Vec<(u8, i64, u32, String, i64)>,
+    /// reception order: payload tag -> position in the order the datagrams were really injected
+    rx_of_tag: HashMap<i64, i64>,
+    next_rx: i64,
     tag2id: HashMap<i64, i64>,
     next_tag: i64,
     max_tag_emitted: i64,
     reliable: bool,
+    /// datagrams held back per writer (see CAct::Arrive.hold)
+    held: HashMap<u8, Vec<(i64, Vec<u8>)>>,
     /// runs with unintelligible changes: SampleInfo clauses are not judged (the fill stops at errors)
     info_checks: bool,
 }
@@ -109,7 +122,21 @@ impl CExec {
             .collect()
     }
 
-    fn arrive(&mut self, w: u8, k: u32, kind: &str, out: &mut Vec<Value>) {
+    fn release_held(&mut self, w: Option<u8>) {
+        let ws: Vec<u8> = match w {
+            Some(w) => vec![w],
+            None => self.held.keys().copied().collect(),
+        };
+        for w in ws {
+            for (tag, dg) in self.held.remove(&w).unwrap_or_default() {
+                self.next_rx += 1;
+                self.rx_of_tag.insert(tag, self.next_rx);
+                let _ = self.rig.inject(&dg);
+            }
+        }
+    }
+
+    fn arrive(&mut self, w: u8, k: u32, kind: &str, hold: bool, out: &mut Vec<Value>) {
         let sn = {
             let e = self.next_sn.entry(w).or_insert(0);
             *e += 1;
@@ -139,7 +166,14 @@ impl CExec {
             }
         };
         let dg = wire::encode(&writer_prefix(w), &[Sub::InfoTs { ts: Some((100 + id as u32, 0)) }, sub]);
-        let _ = self.rig.inject(&dg);
+        if hold && self.reliable {
+            self.held.entry(w).or_default().push((id, dg));
+        } else {
+            self.next_rx += 1;
+            self.rx_of_tag.insert(id, self.next_rx);
+            let _ = self.rig.inject(&dg);
+            self.release_held(Some(w));
+        }
         let _ = out;
     }
 
@@ -162,8 +196,9 @@ impl CExec {
                 _ => "X",
             };
             // handed over in reception order so far? (tags count injections)
-            let ord = tag > self.max_tag_emitted;
-            self.max_tag_emitted = std::cmp::max(self.max_tag_emitted, tag);
+            let rx = self.rx_of_tag.get(&tag).copied().unwrap_or(tag);
+            let ord = rx > self.max_tag_emitted;
+            self.max_tag_emitted = std::cmp::max(self.max_tag_emitted, rx);
             out.push(json!({"ev":"Arrive","w":w,"sn":sn,"k":k,"kind":abs_kind,"wire":kind,"id":id,"ord":ord}));
         }
     }
@@ -295,6 +330,7 @@ impl CExec {
             "iter" | "into_iter" => (1_000_000, "notread"),
             _ => (max, cond),
         };
+        self.release_held(None);
         self.emit_pending(out);
         util::live_event(&json!({"ev":"CallBegin","form":form,"_streamed":true}));
         let mut res = ("died".to_string(), vec![]);
@@ -328,11 +364,11 @@ pub fn run_one(run_no: usize, spec: &CRunSpec, out: &mut Vec<Value>) -> Vec<Vec<
         _ => Dr::Reader,
     };
     let info_checks = !spec.acts.iter().any(|a| matches!(a, CAct::Arrive { kind, .. } if kind == "UD" || kind == "UR" || kind == "DHU"));
-    let mut ex = CExec { rig, dr, reader_eid, next_sn: HashMap::new(), ids: HashMap::new(), arrivals: vec![], pending: vec![], tag2id: HashMap::new(), next_tag: 0, max_tag_emitted: 0, reliable: spec.reliable, info_checks };
+    let mut ex = CExec { rig, dr, reader_eid, next_sn: HashMap::new(), ids: HashMap::new(), arrivals: vec![], pending: vec![], rx_of_tag: HashMap::new(), next_rx: 0, tag2id: HashMap::new(), next_tag: 0, max_tag_emitted: 0, reliable: spec.reliable, held: HashMap::new(), info_checks };
     out.push(json!({"ev":"Reset","run":run_no,"depth":spec.depth,"reliable":spec.reliable,"mode":spec.mode}));
     for a in &spec.acts {
         match a {
-            CAct::Arrive { w, k, kind } => ex.arrive(*w, *k, kind, out),
+            CAct::Arrive { w, k, kind, hold } => ex.arrive(*w, *k, kind, *hold, out),
             CAct::Call { form, max, cond, inst, dir } => {
                 ex.do_call(form, *max, cond, *inst, dir, out);
             }
@@ -398,7 +434,7 @@ pub fn random_c08(rng: &mut StdRng, n_events: usize) -> CRunSpec {
                 seen_keys.push(k);
                 creator[k as usize] = w;
             }
-            acts.push(CAct::Arrive { w, k, kind: kind.into() });
+            acts.push(CAct::Arrive { w, k, kind: kind.into(), hold: rng.gen_bool(0.15) });
         } else {
             let form = forms[rng.gen_range(0..forms.len())];
             acts.push(CAct::Call {
@@ -447,7 +483,7 @@ pub fn random_c09(rng: &mut StdRng, n_events: usize, k: usize) -> CRunSpec {
             }
             // dispose by hash is only "known" after a value of that key from the same reader was processed:
             // the driver keeps that deterministic by calling the form right after each first value of a key
-            acts.push(CAct::Arrive { w, k: key, kind: kind.into() });
+            acts.push(CAct::Arrive { w, k: key, kind: kind.into(), hold: rng.gen_bool(0.1) });
         } else {
             acts.push(CAct::Call { form: form.into(), max: [1, 1000][rng.gen_range(0..2)], cond: "notread".into(), inst: -1, dir: "this".into() });
         }
